@@ -605,7 +605,7 @@ class SubmitSm(Trackable, SmppMessage):
             validity_period=cls.smpp_time_to_datetime(validity_period),
             registered_delivery=registered_delivery,
             replace_if_present_flag=replace_if_present_flag,
-            encoding=encoding if encoding != DEFAULT_ENCODING else None,
+            encoding=encoding if encoding != (default_encoding or DEFAULT_ENCODING) else None,
             sm_default_msg_id=sm_default_msg_id,
             message_payload=message_payload,
             optional_params=optional_params,
